@@ -237,6 +237,12 @@ func renderHostile(d *metaDoc) (string, int) {
 		b.WriteString(label)
 		cut = start + len(label)/2 + 1
 		b.WriteString(`'"><title>t</title></head><body>x</body></html>`)
+	case "xml-none": // unquoted (not well-formed XML, but the declaration parser sees it)
+		b.WriteString(`<?xml version="1.0" encoding=`)
+		start := b.Len()
+		b.WriteString(label)
+		cut = start + len(label)/2 + 1
+		b.WriteString(`?><root/>`)
 	case "xml-dq", "xml-sq":
 		q := map[string]string{"xml-dq": "dq", "xml-sq": "sq"}[d.Syn]
 		b.WriteString(`<?xml version="1.0" encoding=`)
